@@ -12,11 +12,16 @@ import (
 
 // C15 — parent and child (extension) stores stay consistent.
 
-func c15Cfg(extended, uniqueExtra bool) kit.WorldCfg {
-	return kit.WorldCfg{
+func c15Cfg(extended, uniqueExtra, second bool) kit.WorldCfg {
+	cfg := kit.WorldCfg{
 		Stores:   []kit.StoreCfg{{Name: "emps", UniqueName: true, RolesIndex: true}},
 		Children: []kit.ChildCfg{{Name: "mgrs", Parent: "emps", Extended: extended, UniqueExtra: uniqueExtra}},
 	}
+	if second {
+		// a second child type over the same parent; an entity belongs to at most one of the two
+		cfg.Children = append(cfg.Children, kit.ChildCfg{Name: "ctrs", Parent: "emps"})
+	}
+	return cfg
 }
 
 var c15Universe = kit.EntUniverse{
@@ -30,11 +35,15 @@ var c15Universe = kit.EntUniverse{
 
 func genC15(t *rapid.T) kit.History {
 	// half of the child stores have an index of their own (nullable unique index over the child-only field)
-	cfg := c15Cfg(rapid.IntRange(0, 2).Draw(t, "extended") == 0, rapid.Bool().Draw(t, "uniqueExtra"))
+	second := rapid.IntRange(0, 2).Draw(t, "secondChild") == 0
+	cfg := c15Cfg(rapid.IntRange(0, 2).Draw(t, "extended") == 0, rapid.Bool().Draw(t, "uniqueExtra"), second)
 	return kit.GenHistory(t, cfg, 20, 3, false, 60, func(t *rapid.T, l string, m *kit.Model) kit.Op {
 		store := "emps"
 		if rapid.Bool().Draw(t, l+"_viaChild") {
 			store = "mgrs"
+			if second && rapid.IntRange(0, 2).Draw(t, l+"_viaSecond") == 0 {
+				store = "ctrs"
+			}
 		}
 		if rapid.IntRange(0, 11).Draw(t, l+"_deleteWhere") == 0 {
 			return kit.Op{Kind: "deletewhere", Store: store, Spec: &kit.EntSpec{Name: c15Universe.Names[rapid.IntRange(0, len(c15Universe.Names)-2).Draw(t, l+"_dwName")]}}
@@ -46,7 +55,7 @@ func genC15(t *rapid.T) kit.History {
 func runC15(h kit.History) kit.Result {
 	res := kit.Result{Sub: len(h.Txs)}
 	extended := h.Cfg.Children[0].Extended
-	res.Classes = append(res.Classes, fmt.Sprintf("extended:%v", extended), fmt.Sprintf("child-index:%v", h.Cfg.Children[0].UniqueExtra))
+	res.Classes = append(res.Classes, fmt.Sprintf("extended:%v", extended), fmt.Sprintf("child-index:%v", h.Cfg.Children[0].UniqueExtra), fmt.Sprintf("child-stores:%d", len(h.Cfg.Children)))
 	st, err := kit.RunHistory(h, func(w *kit.World, m *kit.Model, i int, tx kit.TxSpec, out kit.TxOutcome) error {
 		if !out.Committed {
 			return nil
